@@ -306,9 +306,9 @@ typedef enum {
 #define ARES_GETSOCK_MAXNUM                       \
   16 /* ares_getsock() can return info about this \
         many sockets */
-#define ARES_GETSOCK_READABLE(bits, num) (bits & (1 << (num)))
+#define ARES_GETSOCK_READABLE(bits, num) (bits & (1U << (num)))
 #define ARES_GETSOCK_WRITABLE(bits, num) \
-  (bits & (1 << ((num) + ARES_GETSOCK_MAXNUM)))
+  (bits & (1U << ((num) + ARES_GETSOCK_MAXNUM)))
 
 /* c-ares library initialization flag values */
 #define ARES_LIB_INIT_NONE  (0)
